@@ -30,7 +30,11 @@ type Op struct {
 	ExpStore    map[string]string `json:"expect_store,omitempty"`
 	MayComplete bool              `json:"may_complete,omitempty"` // waiting expected only because the handler runs on its own goroutine
 	Choosing    bool              `json:"choosing,omitempty"`     // the argument is a choice (the previous element was an option group)
-	Note        string            `json:"note,omitempty"`
+	// ExpCalls: the host functions this call runs, in order, with their arguments (when CallsKnown):
+	// every evaluation the script's semantics ask for happens once, nothing is evaluated twice or early
+	ExpCalls   []string `json:"expect_calls,omitempty"`
+	CallsKnown bool     `json:"calls_known,omitempty"`
+	Note       string   `json:"note,omitempty"`
 }
 
 type Violation struct {
@@ -218,6 +222,10 @@ type execHooks struct {
 	stopAfter func(i int, op *Op, got *Resp) bool
 	bubble    bool
 	epochNs   int64
+	// callsClause, when set, makes runOps compare the host-function calls of every answered call with
+	// the model's (only where the answer itself is the expected one and is not an error)
+	callsClause string
+	callsOff    bool
 }
 
 // needsBubble says whether a world has goroutines or clocks to control.
@@ -272,7 +280,10 @@ func runOps(h *Host, ops []Op, hk *execHooks, st *Stats) (*Trace, *Violation) {
 				tr.Stores = append(tr.Stores, nil)
 				tr.Events = append(tr.Events, nil)
 				i++
-				op = &ops[i]
+				merged := ops[i]
+				merged.ExpCalls = append(append([]string{}, ops[i-1].ExpCalls...), ops[i].ExpCalls...)
+				merged.CallsKnown = ops[i-1].CallsKnown && ops[i].CallsKnown
+				op = &merged
 			}
 		case "write":
 			if h.st != nil && op.Val != nil {
@@ -317,7 +328,32 @@ func finishOp(i int, op *Op, got *Resp, h *Host, hk *execHooks, tr *Trace, ev0 i
 	tr.Stores = append(tr.Stores, h.StoreCanon())
 	tr.Events = append(tr.Events, h.eventsFrom(ev0))
 	if hk.afterOp != nil {
-		return hk.afterOp(i, op, got, h, tr)
+		if v := hk.afterOp(i, op, got, h, tr); v != nil {
+			return v
+		}
+	}
+	if hk.callsClause != "" && !hk.callsOff && op.K == "next" && op.CallsKnown && got != nil && op.Exp != nil {
+		switch {
+		case (op.Exp.Kind == rError && op.Exp.Err != "command reported an error") || op.Exp.Kind == rAny || respDiff(*op.Exp, *got) != "":
+			// a failing statement (how far its evaluation got is not claimed) or a divergence that is
+			// somebody else's business: from here on the calls are not comparable any more
+			if op.Exp.Kind == rAny || respDiff(*op.Exp, *got) != "" {
+				hk.callsOff = true
+			}
+		default:
+			var real []string
+			for _, e := range tr.Events[len(tr.Events)-1] {
+				if strings.HasPrefix(e, "fn ") {
+					real = append(real, e[3:])
+				}
+			}
+			if gStats != nil && len(op.ExpCalls) > 0 {
+				gStats.inc("answered_calls_with_host_function_calls_compared", 1)
+			}
+			if !sameStrs(real, op.ExpCalls) {
+				return &Violation{Clause: hk.callsClause, OpIndex: i, Expected: op.ExpCalls, Observed: real, Note: "host functions called during this call: every evaluation the statements ask for happens exactly once, in order"}
+			}
+		}
 	}
 	return nil
 }
